@@ -1,5 +1,6 @@
 // SPDX-License-Identifier: MIT
 pragma solidity 0.8.17;
+// ported from the 0.6.12 code base, see CHANGELOG 0.4.26 -> 0.7.6
 
 library SafeMath {
     function sub(uint256 a, uint256 b) internal pure returns (uint256) {
@@ -18,3 +19,5 @@ contract NewWitness {
         return counter;
     }
 }
+
+// schema 0.1.0
